@@ -45,7 +45,7 @@ Definition cse_members_entry (args : list sx) : sx :=
   match args with
   | [SZ h; SZ w; a] =>
       match dec_val a with
-      | Some v => enc_res (cse_members h w v)
+      | Some v => enc_res (target_cells h w v)
       | None => bad_args
       end
   | _ => bad_args
@@ -69,7 +69,7 @@ Definition table : list entry :=
   ; E "array_fixup" (op_entry array_fixup)
   ; E "fit_to_range" (call2 arrayfit.f__ArrayFormulaContext_fit_to_range)
   ; E "cse_probe" cse_probe_entry
-  ; E "cse_members" cse_members_entry
+  ; E "target_cells" cse_members_entry
   ; E "load_members" load_members_entry
   ].
 
